@@ -10,7 +10,7 @@ Definition nonblank (l : str) : bool := existsb (fun c => negb (is_ascii_ws c)) 
 Definition segs (pre b : str) : list str :=
   match split_on 10 b with p :: ps => (pre ++ p) :: ps | [] => [pre] end.
 Definition finalize (s : scan_st) : list str :=
-  List.rev (if push_ok s then List.rev (cur s) :: pushed s else pushed s).
+  frev (if push_ok s then frev (cur s) :: pushed s else pushed s).
 Definition scan_inv (s : scan_st) : Prop :=
   if trimming s then nonblank (cur s) = false /\ nlead s = List.length (cur s)
   else nonblank (cur s) = true /\ (nlead s < List.length (cur s))%nat.
@@ -42,9 +42,9 @@ Lemma scan_fold b : forall s, scan_inv s ->
   finalize (fold_left scan_step b s) = List.rev (pushed s) ++ filter nonblank (segs (List.rev (cur s)) b).
 Proof.
   induction b as [|c r IH]; intros s I.
-  - cbn [fold_left]. unfold finalize, segs. cbn [split_on]. rewrite app_nil_r, (push_ok_nonblank s I). cbn [filter].
+  - cbn [fold_left]. unfold finalize, segs. rewrite !frev_eq. cbn [split_on]. rewrite app_nil_r, (push_ok_nonblank s I). cbn [filter].
     destruct (nonblank (List.rev (cur s))); cbn [List.rev]; [reflexivity|rewrite app_nil_r; reflexivity].
-  - cbn [fold_left]. rewrite IH by (apply scan_inv_step; auto). unfold scan_step.
+  - cbn [fold_left]. rewrite IH by (apply scan_inv_step; auto). unfold scan_step. rewrite ?frev_eq.
     destruct (N.eqb_spec c 10) as [->|Hc].
     + cbn [pushed cur List.rev app]. rewrite segs_nl. cbn [filter]. rewrite (push_ok_nonblank s I).
       unfold segs. pose proof (split_on_nonnil 10 r) as N. destruct (split_on 10 r) as [|p ps]; [congruence|]. cbn [app].
